@@ -1352,6 +1352,23 @@ class Lib:
         o.arr = z3.Store(o.arr, o.length, o.kind.unwrap(x))
         o.length = o.length + 1
 
+    def m_seq_insert(self, ctx, o, i, x):
+        """list.insert(i, x) on an owned symbolic list, for 0 <= i <= len (the other index forms are not modelled)."""
+        from .symexec import short
+        from . import mutstate
+
+        if not (getattr(o, "owned", False) or o.fresh):
+            ctx.oblige("%s/frame#aliased-mutation" % short(ctx.func), False, kind="frame")
+        it = V.Int.unwrap(i)
+        if ctx.decide(z3.Or(it < 0, it > o.length)):
+            raise EngineLimit("list.insert with a negative / out-of-range index")
+        if isinstance(x, Obj) and x.fields is not None:
+            mutstate.publish(self.e, ctx, x)
+        j = z3.FreshConst(z3.IntSort(), "j")
+        old = o.arr
+        o.arr = z3.Lambda([j], z3.If(j < it, z3.Select(old, j), z3.If(j == it, o.kind.unwrap(x), z3.Select(old, j - 1))))
+        o.length = o.length + 1
+
     def m_list_extend(self, ctx, o, xs):
         self._mutating(ctx, o)
         o.items.extend(self.e.iter_concrete(ctx, xs))
